@@ -74,6 +74,10 @@ pub struct NetInner {
     /// blocked (src label prefix, dst address)
     pub blocked: BTreeSet<(String, String)>,
     pub max_latency_ms: u64,
+    /// heavy tail: per mille of messages whose latency is multiplied by 4..=spike_factor_max
+    /// (a slow connection or a stalled peer; the connection stays FIFO)
+    pub spike_pm: u64,
+    pub spike_factor_max: u64,
     pub next_conn: u64,
     pub seq: u64,
     pub trace: TraceHash,
@@ -147,6 +151,8 @@ impl Net {
                 down: BTreeSet::new(),
                 blocked: BTreeSet::new(),
                 max_latency_ms: max_latency_ms.max(1),
+                spike_pm: 0,
+                spike_factor_max: 4,
                 next_conn: 1,
                 seq: 0,
                 trace: TraceHash::new(),
@@ -229,7 +235,19 @@ impl Net {
             *e += 1;
             *e
         };
-        1 + hash3(g.seed, chan, idx) % g.max_latency_ms
+        let base = 1 + hash3(g.seed, chan, idx) % g.max_latency_ms;
+        if g.spike_pm > 0 && hash3(g.seed ^ 0x5b1ce, chan, idx) % 1000 < g.spike_pm {
+            let f = 4 + hash3(g.seed ^ 0xfac7, chan, idx) % (g.spike_factor_max.max(4) - 3);
+            *g.fault_counts.entry("latency_spike".to_string()).or_insert(0) += 1;
+            return base * f;
+        }
+        base
+    }
+
+    pub fn set_latency_spikes(&self, per_mille: u64, factor_max: u64) {
+        let mut g = self.inner.lock();
+        g.spike_pm = per_mille;
+        g.spike_factor_max = factor_max;
     }
 
     pub fn kill_source(&self, label: &str) {
